@@ -256,10 +256,18 @@ def c07_sessions(V, tier, family="main"):
         # histories in which an UNMODIFIED document is closed between an edit and the final query come first
         # (closed: a conftest / module, not the edited file; the final query is a go-to-definition): ALL of those run
         def is_pri(c):
+            # a conftest / module is opened, ANOTHER file is edited while it is open, then it is closed, then go-to-definition:
+            # whatever closing does to the closed file's place in the index shows in the other documents' answers
             h = c["hist"]
-            closed = {e["f"] for e in h[:-1] if e["t"] == "close"}
-            edited = {e["f"] for e in h if e["t"] == "edit"}
-            return bool(closed) and bool(edited) and not (closed & edited) and not (closed & set(test_files)) and h[-1]["t"] == "goto"
+            if h[-1]["t"] != "goto":
+                return False
+            for i, a in enumerate(h[:-1]):
+                if a["t"] == "open" and a["f"] not in test_files:
+                    for j in range(i + 1, len(h) - 1):
+                        if h[j]["t"] == "edit" and h[j]["f"] != a["f"]:
+                            if any(b["t"] == "close" and b["f"] == a["f"] for b in h[j + 1:-1]):
+                                return True
+            return False
         pri = [c for c in cases if is_pri(c)]
         rest = [c for c in cases if not is_pri(c)]
         cases = pri[:400 if tier == "quick" else 4000] + rest[:40 if tier == "quick" else 400]
@@ -305,7 +313,9 @@ def c07_sessions(V, tier, family="main"):
                         ver.setdefault(f, 1)
                     if not cold:
                         opened.discard(f)
-                if cold and not fin and t != "edit":
+                # the cold twin performs the state-changing events: edits and didOpen of unmodified documents (a re-analysis; what
+                # THAT does to order-dependent answers is judged at library level through the model's "open" event)
+                if cold and not fin and t not in ("edit", "open"):
                     continue
                 if t == "edit":
                     cur[f] = vt.r[(f, ev["v"])]
